@@ -39,14 +39,10 @@ func atomicAppend(c *Ctx, rule, short, fnName string) {
 		c.Ob(rule, name+"/under-lock", st.Pos(), li.HoldsW(st, recv+".mu"), "store to "+recv+".packets without "+recv+".mu write-held; held="+li.Held(st).String())
 		c.Ob(rule, name+"/not-in-loop", st.Pos(), !inLoop(st.Block()), "the store sits in a loop: frames would be appended one by one")
 	}
-	nlock := 0
-	for _, b := range fn.Blocks {
-		for _, in := range b.Instrs {
-			if op, ok := lockOpOf(in); ok && op.acq && op.lock == recv+".mu" {
-				nlock++
-			}
-		}
-	}
+	nlock := len(findInstrs(fn, func(in ssa.Instruction) bool {
+		op, ok := lockOpOf(in)
+		return ok && op.acq && op.lock == recv+".mu"
+	}))
 	c.Ob(rule, name+"/one-region", fn.Pos(), nlock == 1, fmt.Sprintf("%d Lock() calls on %s.mu in add(): the frames of one call must be published in a single critical section", nlock, recv))
 }
 
